@@ -187,7 +187,12 @@ def _step_defs(fn, c, body):
         if dbb not in body or fn.is_cleanup(dbb):
             continue
         kind = "other"
-        if dk == "assign" and not payload["p"][1] and payload["r"][0] == "use" and payload["r"][1][0] in ("c", "m"):
+        if dk == "assign" and not payload["p"][1] and payload["r"][0] == "bin":
+            # overflow checks off: `c = Add(c, const 1)` directly, without the checked pair
+            b = payload["r"]
+            if _counter_of(fn, b[2]) == c and _const_of(fn, b[3]) == 1:
+                kind = "inc" if b[1].startswith("Add") else "dec" if b[1].startswith("Sub") else "other"
+        elif dk == "assign" and not payload["p"][1] and payload["r"][0] == "use" and payload["r"][1][0] in ("c", "m"):
             src = payload["r"][1][1]
             sd = fn.single_def(src[0])
             if sd is not None and sd[2] == "assign" and sd[3]["r"][0] == "bin":
